@@ -162,6 +162,9 @@ READ = [
     ('readlist', lambda bs, o, dn, n: bs.BitStream(o).readlist([f'{dn}:{n}'])[0], "bitstring.BitStream(o).readlist(['{dn}:{n}'])[0]"),
     ('peek', lambda bs, o, dn, n: bs.ConstBitStream(o).peek(bs.Dtype(dn, n)), "bitstring.ConstBitStream(o).peek(bitstring.Dtype('{dn}', {n}))"),
     ('array', lambda bs, o, dn, n: bs.Array(f'{dn}{n}', o)[0], "bitstring.Array('{dn}{n}', o)[0]"),
+    ('read-dtype', lambda bs, o, dn, n: bs.ConstBitStream(o).read(bs.Dtype(dn, n)), "bitstring.ConstBitStream(o).read(bitstring.Dtype('{dn}', {n}))"),
+    ('readlist-dtype', lambda bs, o, dn, n: bs.BitStream(o).readlist([bs.Dtype(f'{dn}{n}')])[0], "bitstring.BitStream(o).readlist([bitstring.Dtype('{dn}{n}')])[0]"),
+    ('dtype-of-dtype', lambda bs, o, dn, n: bs.Dtype(bs.Dtype(dn, n)).parse(o), "bitstring.Dtype(bitstring.Dtype('{dn}', {n})).parse(o)"),
 ]
 
 
@@ -309,7 +312,7 @@ def one_value(bs, acc, sp, n, v, full):
     for cls, o, osrc in objs:
         for dn in names:
             for rname, fn, src in READ:
-                if rname in ('prop-sized', 'array') and n == 0:
+                if rname in ('prop-sized', 'array', 'readlist-dtype') and n == 0:
                     continue
                 if rname == 'unpack-lenless' and sp.kind == 'float' and False:
                     continue
@@ -346,8 +349,13 @@ def misc(bs, acc):
             o = c(bin=exp)
             for rname, th, src in [('prop', lambda: o.bytes, "o.bytes"), ('tobytes', lambda: o.tobytes(), "o.tobytes()"), ('unpack', lambda: o.unpack(f'bytes:{n}')[0], f"o.unpack('bytes:{n}')[0]"),
                                    ('unpack-lenless', lambda: o.unpack('bytes')[0], "o.unpack('bytes')[0]"), ('parse', lambda: bs.Dtype('bytes', n).parse(o), f"bitstring.Dtype('bytes', {n}).parse(o)"),
-                                   ('read', lambda: bs.ConstBitStream(o).read(f'bytes{n}'), f"bitstring.ConstBitStream(o).read('bytes{n}')")]:
-                if rname == 'read' and n == 0:
+                                   ('read', lambda: bs.ConstBitStream(o).read(f'bytes{n}'), f"bitstring.ConstBitStream(o).read('bytes{n}')"),
+                                   ('read-dtype', lambda: bs.ConstBitStream(o).read(bs.Dtype('bytes', n)), f"bitstring.ConstBitStream(o).read(bitstring.Dtype('bytes', {n}))"),
+                                   ('peek-dtype', lambda: bs.BitStream(o).peek(bs.Dtype(f'bytes{n}')), f"bitstring.BitStream(o).peek(bitstring.Dtype('bytes{n}'))"),
+                                   ('readlist-dtype', lambda: bs.ConstBitStream(o).readlist([bs.Dtype('bytes', n)])[0], f"bitstring.ConstBitStream(o).readlist([bitstring.Dtype('bytes', {n})])[0]"),
+                                   ('unpack-dtype', lambda: o.unpack([bs.Dtype('bytes', n)])[0], f"o.unpack([bitstring.Dtype('bytes', {n})])[0]"),
+                                   ('dtype-of-dtype', lambda: bs.Dtype(bs.Dtype('bytes', n)).parse(o), f"bitstring.Dtype(bitstring.Dtype('bytes', {n})).parse(o)")]:
+                if rname in ('read', 'read-dtype', 'peek-dtype', 'readlist-dtype', 'unpack-dtype', 'dtype-of-dtype') and n == 0:
                     continue
                 got = obs(th)
                 acc.step('read', 1, nontrivial=1, ok=1)
